@@ -6,7 +6,7 @@ import (
 )
 
 func TestDirected(t *testing.T) {
-	sc := Scenario{Name: "dirA", TreeSeed: 1501, Directed: true, OldLen: 5, NewLen: 4, Cache: "archive", OrderSeed: 1000, SetHeadTo: -1}
+	sc := Scenario{Name: "dirA", TreeSeed: 1501, Directed: true, OldLen: 8, NewLen: 7, Cache: "archive", OrderSeed: 1000, SetHeadTo: -1}
 	b := sc.Build()
 	for _, n := range b.Tree.Nodes {
 		fmt.Println(n.ID, n.Parent, n.Block.NumberU64(), n.Block.Difficulty(), n.Block.Time(), b.Tree.Td(n.ID))
